@@ -57,11 +57,18 @@ def minor_instances():
         ("a fused allele without copies at one site", Instance(cat, {"1": 1, "3": 1}, merged({G1: 10, T1: 9, T2: 11, T3: 5}, ref((100, 10), (200, 11), (300, 9), (400, 6))),
                                                                no_cov={("3", 400)}, copies_at={400: 1})),
         ("an insertion and a substitution sharing a site", Instance({"1": ([], {"1.001": [], "1.002": [T1]})}, {"1": 2}, merged({T1: 8, IN: 7}, ref((200, 13))), considered=[IN])),
+        ("an insertion in an allele's definition (it does not take the reference base away)",
+         Instance({"1": ([], {"1.001": [], "1.003": [IN]})}, {"1": 2}, merged({IN: 6}, ref((200, 19))))),
         ("a novel core variant on both copies (its surcharge is charged once)",
          Instance({"1": ([], {"1.001": []})}, {"1": 2}, merged({NV: 19}, ref((500, 1))), considered=[NV], functional=[NV])),
         ("read groups that tie variants together",
          Instance(small, {"1": 1, "3": 1}, merged({G1: 10, T2: 11, T1: 6}, ref((100, 10), (200, 14), (300, 9))), considered=[T1],
                   phases={"r1": {100: "A>G", 300: "G>A"}, "r2": {100: "A>G", 300: "G>A"}, "r3": {100: "_", 200: "C>T"}, "r4": {300: "G>A"}, "r5": {100: "_", 300: "_"}})),
+        ("read groups present but phasing switched off in the profile",
+         Instance(small, {"3": 1}, merged({G1: 10, T2: 11}, ref((100, 3), (300, 2))), phases={"r1": {100: "_", 300: "_"}, "r2": {100: "_", 300: "_"}}, phase_on=False)),
+        ("a read group over a site one candidate has no copy of (it has a single selector there and cannot explain the group)",
+         Instance(small, {"1": 1, "3": 1}, merged({G1: 10, T2: 11}, ref((100, 10), (300, 9))), no_cov={("1", 300)}, copies_at={300: 1},
+                  phases={"r1": {100: "A>G", 300: "G>A"}, "r2": {100: "_", 300: "G>A"}})),
         ("read groups showing the reference where the only called copy carries variants (an uncalled candidate would explain them)",
          Instance(small, {"3": 1}, merged({G1: 10, T2: 11}, ref((100, 3), (300, 2))),
                   phases={"r1": {100: "_", 300: "_"}, "r2": {100: "_", 300: "_"}, "r3": {100: "A>G", 300: "G>A"}})),
